@@ -26,11 +26,11 @@ Theorem C13_write_passthrough : forall W E (wwrite : W -> str -> W * (nat * opti
 Proof. exact write_passthrough. Qed.
 Print Assumptions C13_write_passthrough.
 
-(* a failing hook (or a missing/conflicting file type) makes the target fail and hands none of
-   its files to a file type *)
+(* a failing hook (or a missing, conflicting or unregistered file type) makes the target fail and
+   hands none of its files to a file type: every error but a failed assembly *)
 Theorem C13_generator_error_no_files : forall itoa c t e,
   r_err (exec_target itoa c t) = Some e ->
-  (forall x, e <> XUnknownType x) -> (forall fs, e <> XAssemble fs) ->
+  (forall fs, e <> XAssemble fs) ->
   r_files (exec_target itoa c t) = Some [].
 Proof. exact generator_error_no_files. Qed.
 Print Assumptions C13_generator_error_no_files.
